@@ -17,11 +17,11 @@ pub const RULE13: &str = "case = (alphabet, matrix and background as C12, p in (
 pub const REQUIRED12: &[&str] = &[
     "alphabet.dna", "alphabet.protein", "bg.uniform", "bg.nonuniform", "query.below_min", "query.far_below_min",
     "query.above_max", "query.attainable", "query.attainable_eps", "query.random", "iterations.checked", "converged.observed",
-    "pvalue.checked",
+    "pvalue.checked", "matrix.finite_wildcard_column",
 ];
 pub const REQUIRED13: &[&str] = &[
     "alphabet.dna", "alphabet.protein", "bg.uniform", "bg.nonuniform", "p.attainable_tail", "p.between_tails",
-    "p.log_uniform", "iterations.checked", "converged.observed", "score.checked", "lower_side.checked",
+    "p.log_uniform", "iterations.checked", "converged.observed", "score.checked", "lower_side.checked", "matrix.finite_wildcard_column",
 ];
 
 pub struct Setup<A: Alphabet> {
@@ -58,13 +58,38 @@ pub fn setup<A: Alphabet>(rng: &mut Rng, rep: &mut Report, max_m: usize) -> Opti
     } else {
         let kind = *rng.pick(&[MatKind::Finite, MatKind::SmallInt, MatKind::FewValued]);
         let mut rows = gen_matrix(rng, k, m, kind);
+        // the wildcard column may be -inf (library conversions) or finite (ScoringMatrix::new, Python)
+        let wild_mode = rng.below(3);
         for r in rows.iter_mut() {
-            r[k - 1] = f32::NEG_INFINITY;
             if kind == MatKind::Finite {
                 for x in r.iter_mut().take(k - 1) {
                     *x *= 0.25;
                 }
             }
+            // some rows strictly positive, some strictly negative
+            match rng.below(4) {
+                0 => {
+                    let lo = r[..k - 1].iter().cloned().fold(f32::INFINITY, f32::min);
+                    for x in r.iter_mut().take(k - 1) {
+                        *x += 0.5 - lo;
+                    }
+                }
+                1 => {
+                    let hi = r[..k - 1].iter().cloned().fold(f32::NEG_INFINITY, f32::max);
+                    for x in r.iter_mut().take(k - 1) {
+                        *x -= 0.5 + hi;
+                    }
+                }
+                _ => {}
+            }
+            r[k - 1] = match wild_mode {
+                0 => f32::NEG_INFINITY,
+                1 => 0.0,
+                _ => rng.f32_in(-3.0, 3.0),
+            };
+        }
+        if wild_mode != 0 {
+            rep.cover("matrix.finite_wildcard_column");
         }
         (ScoringMatrix::<A>::new(bg.clone(), dense::<A>(&rows)), "arbitrary")
     };
@@ -276,8 +301,29 @@ fn case13<A: Alphabet>(case: u64, rng: &mut Rng, rep: &mut Report, alpha: &str, 
                 rep.cover("lower_side.checked");
                 let lower_tail = ex.sf(u - d);
                 if lower_tail < p - noise {
-                    // root-cause predicate of the known finding: only the iteration that declares convergence
-                    let kind = if it.converged { "c13.lower_side.converged_skips_attainable_score" } else { "c13.lower_side" };
+                    // root-cause predicate of the known finding: the failing iteration declares
+                    // convergence AND the frozen copy of the reference algorithm (tfm_ref) yields exactly
+                    // the same iterations, i.e. the failure is the window limitation inherent to the
+                    // reference algorithm and not a deviation of the library from it
+                    let same_as_reference = {
+                        let r = guard(|| {
+                            let mut t = crate::tfm_ref::TfmPvalue::new(&st.pssm);
+                            let mut v = Vec::new();
+                            for x in t.approximate_score(p) {
+                                let stop = x.converged || x.granularity <= MIN_G * 2.0;
+                                v.push((x.score, x.granularity, x.converged));
+                                if stop {
+                                    break;
+                                }
+                            }
+                            v
+                        });
+                        match r {
+                            Ok(v) => v.len() == its.len() && v.iter().zip(its.iter()).all(|(a, b)| a.0 == b.score && a.1 == b.granularity && a.2 == b.converged),
+                            Err(_) => false,
+                        }
+                    };
+                    let kind = if it.converged && same_as_reference { "c13.lower_side.converged_skips_attainable_score" } else { "c13.lower_side" };
                     rep.violate(
                         kind,
                         case,
